@@ -870,7 +870,7 @@ class FnTranslator:
         if self.is_result:
             return self.result_comp(e, env)
         pre = []
-        term, ty = self.expr(e, env, pre, self.val_ty if self.val_ty[0] != "opaque" else None)
+        term, ty = self.expr(e, env, pre, self.val_ty if (self.val_ty[0] != "opaque" or e[0] == "macro") else None)   # (a diverging macro keeps the declared type: b1819's `unimplemented!()` bodies)
         if self.val_ty[0] == "opaque" and ty[0] == "struct" and self.ret == self.val_ty:
             # (b0507) a struct value returned where the signature names a type the unit does not know
             # (`Arc<dyn Validator>`, `Box<dyn Policy>`): rustc accepted it, so it is the unsizing coercion of that struct
@@ -3229,6 +3229,34 @@ class FnTranslator:
             if m == "is_ok" and not args: return "(match %s with | Except.ok _ => true | Except.error _ => false)" % x, BOOL, "val"
             if m == "is_err" and not args: return "(match %s with | Except.ok _ => false | Except.error _ => true)" % x, BOOL, "val"
             raise RsError("method .%s on a captured Result is outside the subset" % m)
+        if any(n.endswith("." + m) and x.get("updates_receiver") for n, x in self.u.externals.items()):
+            # (b1819) receiver-updating external in value position / under `?`: `let v = r.read_u32_be()?;`,
+            # `w.write_all(&b)?;` — the external returns the new receiver, or the pair (new receiver, value); a declared
+            # `Result` must be "monadic" and consumed by `?` (or the tail position)
+            try:
+                self.place_root(recv); _, bt0 = self.expr(recv, env, [], None)
+            except RsError:
+                bt0 = None
+            nm = "%s.%s" % (bt0[1], m) if bt0 is not None and bt0[0] in ("opaque", "struct") else None
+            if nm in self.u.externals and self.u.externals[nm].get("updates_receiver"):
+                term, t, kind = self.call_external(nm, [recv] + list(args), env, pre)
+                if kind == "comp":
+                    if not wr or not self.is_result:
+                        raise RsError("Result of the receiver-updating external %s used other than by `?`" % nm)
+                    v = self.fresh()
+                    pre.append(("bind", v, MCall(term))); term = v
+                elif t[0] in ("tryres", "extres"):
+                    raise RsError("receiver-updating external %s: a declared Result must be monadic" % nm)
+                k2 = "tried" if kind == "comp" else "val"
+                if t == bt0:
+                    self.place_set(recv, term, env, pre)
+                    return "()", UNIT, k2
+                if t[0] == "tuple" and len(t[1]) == 2 and t[1][0] == bt0:
+                    a, b = self.fresh("rcv"), self.fresh("val")
+                    pre.append(("let", "(%s, %s)" % (a, b), term))
+                    self.place_set(recv, a, env, pre)
+                    return b, t[1][1], k2
+                raise RsError("receiver-updating external %s must return the receiver type or (receiver, value)" % nm)
         if recv == ("path", ["self"]) and ("self." + m) in self.u.externals:
             return self.call_external("self." + m, args, env, pre)
         if recv == ("path", ["self"]) and self.impl and "%s.%s" % (self.impl, m) in self.u.externals and "self" in env:
